@@ -521,7 +521,7 @@ func (e *Exec) Emit(o *Obligation) []*smt.Term {
 		}
 		// skolems reach later instantiations through E-matching (they occur in
 		// ground applications of the previous round), not as blanket candidates
-		if round == 0 {
+		if round == 0 && os.Getenv("GOVC_SKCANDS") != "" {
 			for _, s := range q.newSk {
 				if !seen[s] {
 					seen[s] = true
